@@ -207,6 +207,7 @@ impl Monitor for C13 {
     fn mandatory(&self) -> Vec<&'static str> {
         vec![
             "mints_ok",
+            "minter_calls_tried_by_the_migration_admin",
             "mints_of_exactly_the_room_ok",
             "mints_one_over_the_room_rejected",
             "non_minter_mint_rejected",
@@ -306,6 +307,15 @@ impl Monitor for C13 {
             // former minters retry often
             let sender = if !m.former.is_empty() && h.rng.chance(1, 5) {
                 h.rng.pick_cloned(&m.former)
+            } else {
+                sender
+            };
+            // now and then the contract's migration admin (as the chain reports it) tries the minter's calls
+            let mut side = h.rng.clone();
+            side.below(1000);
+            let sender = if matches!(op, Op::UpdateMinter { .. } | Op::Mint { .. }) && side.chance(1, 10) {
+                h.out.count("minter_calls_tried_by_the_migration_admin");
+                crate::direct::chain_admin()
             } else {
                 sender
             };
